@@ -4,7 +4,7 @@ set -u
 VERIF="$(cd "$(dirname "${BASH_SOURCE[0]}")/.." && pwd)"; cd "$VERIF"
 for p in "$@"; do
   if [ -n "$(git -C /repo status --porcelain)" ]; then echo "/repo is not clean"; exit 2; fi
-  git -C /repo apply "$p" || { echo "$p: does not apply"; continue; }
+  git -C /repo apply "$(realpath "$p")" || { echo "$p: does not apply"; continue; }
   t0=$(date +%s)
   out="$(./check C08 --tier ${TIER:-quick} --no-evidence --run-timeout ${RUN_TIMEOUT:-25} 2>&1)"; rc=$?
   t1=$(date +%s)
